@@ -262,6 +262,8 @@ def _run(ctx):
     prop_c01.stream_rule(ctx, F)
     lexrules.check_strings(ctx, F, cr_required=True)
     prop_c09.length_rules(ctx, F)
+    import prop_c19
+    prop_c19.counted_sink(ctx, F)
     ctx.floor("R-TABLE", "C03 obligations", len(ctx.obligations), 40)
 
 
